@@ -607,7 +607,7 @@ func init() {
 	}
 	register(&Property{ID: "C03", Level: "model_checking", QuickS: 160, ThoroughS: 1200, Assume: assume,
 		Rule: "BFS over histories (same alphabet as C02, incl. lost events, scale, delete-app, API release) per workload x policy class; every transition is followed by 'deliver all; resync' and the " +
-			"quiescent state is compared with the documented-policy reference model (leak direction and spurious-release direction); a second resync must be a no-op",
+			"quiescent state is compared with the documented-policy reference model (leak direction and spurious-release direction); a second resync must be a no-op; plus exhaustive schedules (bounded preemptions) of old-incarnation events, the new incarnation's filter/bind and a resync pass: no IP of a live pod is released",
 		Jobs: func(tier string) []Job {
 			depth := 6
 			if tier == "thorough" {
@@ -620,11 +620,41 @@ func init() {
 			for _, h := range cloudHistSystems() {
 				jobs = append(jobs, histJob("C03", h.jobName(), h, depth-2, oracleC03, nil))
 			}
+			for _, sc := range c03Concurrent(tier) {
+				jobs = append(jobs, ExploreJob("C03", sc, oracleC03Concurrent))
+			}
 			return jobs
 		}})
 	replayers["C03"] = func(tier string, v coop.Violation) int {
-		return replayHist("C03", append(c03Systems(), cloudHistSystems()...), oracleC03, v)
+		if len(v.Ops) > 0 {
+			return replayHist("C03", append(c03Systems(), cloudHistSystems()...), oracleC03, v)
+		}
+		return replayExplore("C03", c03Concurrent(tier), oracleC03Concurrent, v)
 	}
+}
+
+// c03Concurrent: the events of an old incarnation, the scheduling of the new one and a resync pass run concurrently; no policy
+// releases the IP of a pod that is alive.
+func c03Concurrent(tier string) []*Scenario {
+	b := boundsFor(tier)
+	return append(famRecreate(false, b, ""), famRolling(false, b)...)
+}
+
+func oracleC03Concurrent(w *world.World, s *coop.Sched, final bool) *Finding {
+	mem, f := memByIP(w)
+	if f != nil {
+		return nil
+	}
+	for _, b := range liveBound(w) {
+		key := podKeyInDB(w, b.PodKey)
+		for _, ip := range b.IPs {
+			if m := mem[ip]; !m.Alloc || m.Key != key {
+				return &Finding{Clause: "released-while-pod-alive", Culprit: keyShape(key), Detail: fmt.Sprintf("pod %s(uid %s) is alive and bound with %s, which no policy releases, but the tables say {%v}; store log %v",
+					b.PodKey, b.UID, ip, m, tail(w.StoreLog, 4))}
+			}
+		}
+	}
+	return nil
 }
 
 func c02Concurrent(tier string) []*Scenario {
